@@ -241,6 +241,15 @@ def pred_delimited(case, ctx):
     else:
         if sum(np.asarray(c).size if not isinstance(c, list) else len(c) for c in cols) != 0:
             raise Violation("%s on a file without data rows returned %r" % (loader, out))
+        ctx.event("no_data_rows")
+    # documented structure, also for a file without data rows: (n, 2) interval matrix, flat (n,) columns otherwise
+    for k, c in enumerate(cols):
+        if isinstance(c, list):
+            continue
+        want = (len(rows), 2) if (k == 0 and "intervals" in loader) else (len(rows),)
+        if np.asarray(c).shape != want:
+            raise Violation("%s: column %d has shape %r, documented structure is %r for %d data rows; file %r"
+                            % (loader, k, np.asarray(c).shape, want, len(rows), txt[:120]))
     # path and file object agree
     for a, b in zip(cols, cols2):
         same = (list(a) == list(b)) if isinstance(a, list) else (np.asarray(a).tobytes() == np.asarray(b).tobytes() and np.asarray(a).shape == np.asarray(b).shape)
